@@ -12,7 +12,8 @@ _WRAPPED = ["random", "choice", "randint", "permutation"]
 # other entry points: recorded as 'foreign' events so that a draw taken through them
 # is seen (the models do not expect them -> correspondence mismatch)
 _TRIPWIRES = ["rand", "random_sample", "uniform", "shuffle", "normal", "randn", "sample", "ranf",
-              "standard_normal", "integers" ]
+              "standard_normal", "default_rng"]
+_PY_RANDOM = ["random", "randrange", "randint", "uniform", "choice", "shuffle", "sample", "gauss"]
 
 
 class Event:
@@ -178,9 +179,12 @@ class Recorder:
         def w(*a, **k):
             if self.paused:
                 return orig(*a, **k)
-            self.foreign.append((name, _caller()))
+            # another entry point of numpy's *global* generator: reproducible under the seed, but not
+            # one of the primitives the operator models know -> logged as an event they cannot consume
+            if name == "default_rng":
+                self.foreign.append((name, _caller()))
             if self.mode == "record":
-                self.log.append(Event("foreign_" + name, [-1], [], _caller()))
+                self.log.append(Event("other_" + name, [-1], [], _caller()))
             return orig(*a, **k)
         return w
 
@@ -195,22 +199,29 @@ class Recorder:
         for n in _TRIPWIRES:
             if n in self._saved:
                 setattr(np.random, n, self._tripwire(n))
-        self._saved["py_random"] = _pyrandom.random
+        for n in _PY_RANDOM:
+            self._saved["py_" + n] = getattr(_pyrandom, n)
+            setattr(_pyrandom, n, self._py_tripwire(n))
+        return self
 
-        def pyr():
-            if self.paused:
-                return self._saved["py_random"]()
-            self.foreign.append(("random.random", _caller()))
-            if self.mode == "record":
-                self.log.append(Event("foreign_pyrandom", [-1], [], _caller()))
-            return self._saved["py_random"]()
-        _pyrandom.random = pyr
+    def _py_tripwire(self, n):
+        orig = self._saved["py_" + n]
+
+        def w(*a, **k):
+            if not self.paused:
+                self.foreign.append(("random." + n, _caller()))
+                if self.mode == "record":
+                    self.log.append(Event("foreign_pyrandom", [-1], [], _caller()))
+            return orig(*a, **k)
+        return w
+
+    def _unused(self):
         return self
 
     def __exit__(self, *exc):
         for n, f in self._saved.items():
-            if n == "py_random":
-                _pyrandom.random = f
+            if n.startswith("py_"):
+                setattr(_pyrandom, n[3:], f)
             else:
                 setattr(np.random, n, f)
         return False
